@@ -2191,6 +2191,10 @@ def decode_escapes(text):
     # unicode_escape reads its input as Latin-1, so going through UTF-8 garbles every non-ASCII character.
     # Keep Latin-1 characters as they are and spell everything beyond as \uXXXX / \UXXXXXXXX escapes,
     # which the decoder turns back into the original characters.
+    # A backslash directly in front of such a character escapes nothing and stays, as it does in front of
+    # any other character that starts no escape sequence: double it, or it would swallow the backslash of
+    # the \uXXXX spelling and leave the six characters of that spelling in the text.
+    text = re.sub(r'(?<!\\)((?:\\\\)*)\\(?=[^\x00-\xff])', r'\1\\\\', text)
     return text.encode('latin-1', 'backslashreplace').decode('unicode_escape')
 
 
